@@ -91,6 +91,7 @@ type Exec struct {
 	idxLog      *[]IdxT           // collector of (index, sequence) pairs read while evaluating a quantifier body
 	probe       *[]SeqRef         // collector of sequences indexed by a probe variable (see seqsOf)
 	noWD        bool              // suppress well-definedness obligations (while assuming the function's own requires)
+	curGuard    string            // guard of the spec sub-expression being evaluated (see SpecEnv.g)
 	withQ       bool              // include raw quantified assumptions in queries (second attempt)
 	modelTerms  map[string]string // names (parameters, lets) -> scalar terms whose values are asked from a model
 }
